@@ -7,7 +7,7 @@ from dpapi_ng._rpc import _pdu, _request
 from symex import values as V
 from vlib.api import all_of, harness, truth
 
-from . import secctx
+from . import refs, secctx
 from .world import seq_eq
 
 META = dict(assumptions=[
@@ -74,4 +74,45 @@ def other_types(c, n):
     ph = c.call(_pdu.PDUHeader.unpack, adv[:16])
     r = c.call(client._process_response, resp, ph, _request.Response, (24, 24 + STUB))
     c.check(False, "a PDU that is not a RESPONSE was returned as the response")
+    return True
+
+
+@harness(P, params=lambda tier: [dict(n2=n, sign_header=s) for n in ([32] if tier == "quick" else [24, 32, 64]) for s in ((True,) if tier == "quick" else (True, False))],
+         raises=(Exception,), max_steps=600000,
+         bounds="history on one client object: a first reply that is the authentic one with one byte of the signature, the sealed body, the trailer or the header replaced by a symbolic "
+         "value (it must be rejected, or be the authentic reply), then a second request on the same client answered by a fully symbolic reply of the listed length: the second request "
+         "must still be sealed, and a second reply is only accepted if it is what the peer sealed", outside="longer histories",
+         must_reach=("after a rejected reply the next request is still sealed",))
+def response_after_rejection(c, n2, sign_header):
+    a = _authentic(c)
+    ctx = secctx.IdealContext(c, SIG)
+    ctx.add_authentic(a["header"], a["body"], a["trailer"], a["sig"], a["plain"])
+    auth = secctx.provider(ctx)
+    client = _client(c, auth, sign_header)
+    good = refs.cat(a["header"], a["body"], a["trailer"], a["sig"])
+    n = len(good)
+    pos = c.concretize(c.int("pos", 0, 3))
+    where = [n - 1, 30, n - SIG - 8 + 2, 3][pos]  # a signature octet, a sealed octet, the trailer's pad_length, the header's flags
+    items = list(V.seq_items(good))
+    items[where] = c.int("mut", 0, 255)
+    first = V.SymByteArray(items) if c.symbolic else bytearray(items)
+    ph = c.call(_pdu.PDUHeader.unpack, (V.SymBytes(items[:16]).norm() if c.symbolic else bytes(items[:16])))
+    rejected = False
+    try:
+        r1 = c.call(client._process_response, first, ph, _request.Response, (24, 24 + STUB))
+    except Exception:
+        rejected = True
+    if not rejected:
+        c.check(seq_eq(r1.stub_data, a["plain"]), "first reply accepted only if it carries the sealed plaintext")
+    # second request on the same client object
+    req, off = c.call(client._create_request, 0, 0, b"q" * STUB)
+    c.check(off is not None and req.sec_trailer is not None and req.header.auth_len == SIG and client._auth is auth, "after a rejected reply the next request is still sealed")
+    wire = c.call(client._prepare_pdu, req, off)
+    c.check(len(ctx.wrap_calls) == 1, "the second request went through the security context")
+    adv = c.bytes("adv", n2)
+    c.assume(all_of([adv[2] == 2, adv[8] == n2 & 0xFF, adv[9] == n2 >> 8]))
+    resp = V.SymByteArray(list(V.seq_items(adv))) if c.symbolic else bytearray(adv)
+    ph2 = c.call(_pdu.PDUHeader.unpack, adv[:16])
+    r2 = c.call(client._process_response, resp, ph2, _request.Response, off)
+    c.check(seq_eq(r2.stub_data, a["plain"]), "second reply accepted only if it carries sealed plaintext")
     return True
